@@ -4,6 +4,7 @@ import ModbusModel.Lemmas.Tcp
 import ModbusModel.Props.C01
 import ModbusModel.Lemmas.Serve
 import ModbusModel.Lemmas.IndependentSrv
+import ModbusModel.Lemmas.ServePieces
 /-
   C07 – The server answers every request once, in order, under the request's own header.
 -/
@@ -188,6 +189,107 @@ example :
     = [.call 7 (.readCoils 0 1), .write [0, 1, 0, 0, 0, 3, 7, 0x81, 2],
        .call 9 (.readCoils 5 1), .write [0, 2, 0, 0, 0, 4, 9, 1, 1, 1]] := by
   decide +kernel
+
+/-- **… also when the transport takes the replies piecewise** (TCP): the write side accepts each
+    reply in any number of partial writes with any `Pending`s between them (`plans`: for each
+    reply the pieces that leave something over and the write that takes the rest).  The
+    connection still hands every request to the service once, in arrival order, and writes for
+    each – before the next request is looked at – exactly the bytes of its one reply:
+    what it shows `Refines` the expected trace, so the calls are the same calls and the bytes on
+    the wire the same bytes in the same order. -/
+theorem serves_every_request_in_pieces_tcp (svc : Service) (reqs : List (TcpHeader × Request)) (t : Transport)
+    (plans : Plan)
+    (hs : ∀ p ∈ reqs, requestPduSizeRaw p.2 ≤ 253) (hc : ∀ p ∈ reqs, p.2.canonical)
+    (hw : t.writes = scriptOf (expectedTrace .tcp svc 0
+        (reqs.map fun p => ({ tid := p.1.transactionId, unit := p.1.unitId }, p.2))) plans)
+    (hplan : PlanOk (expectedTrace .tcp svc 0
+        (reqs.map fun p => ({ tid := p.1.transactionId, unit := p.1.unitId }, p.2))) plans)
+    (hf : t.flushes = []) (hfeed : ∀ e ∈ t.reads, e.isFeed = true)
+    (hdata : dataOf t.reads = (reqs.map fun p => tcpFrame p.1 (encodeRequestPdu p.2)).flatten)
+    (henc : Encodable .tcp svc 0 (reqs.map fun p => ({ tid := p.1.transactionId, unit := p.1.unitId }, p.2))) :
+    (process .tcp svc t).1 = .blocked
+    ∧ Refines (process .tcp svc t).2.1
+        (expectedTrace .tcp svc 0 (reqs.map fun p => ({ tid := p.1.transactionId, unit := p.1.unitId }, p.2)))
+    ∧ callsOf (process .tcp svc t).2.1 = reqs.map (fun p => (p.1.unitId, p.2))
+    ∧ writtenOf (process .tcp svc t).2.1
+        = writtenOf (expectedTrace .tcp svc 0 (reqs.map fun p => ({ tid := p.1.transactionId, unit := p.1.unitId }, p.2))) := by
+  have hitems : (reqs.map fun p => tcpFrame p.1 (encodeRequestPdu p.2)).map tcpServerFraming.item
+      = reqs.map fun p => ({ tid := p.1.transactionId, unit := p.1.unitId }, p.2) := by
+    rw [List.map_map]
+    apply List.map_congr_left
+    intro p hp
+    have h3 := server_decodes_request_tcp p.1 p.2 [] (hs p hp) (hc p hp)
+    simp only [List.append_nil] at h3
+    simp [tcpServerFraming, Framing.ofStrict, h3]
+  have hv : ∀ x ∈ (reqs.map fun p => tcpFrame p.1 (encodeRequestPdu p.2)), tcpServerFraming.Valid x := by
+      intro x hx
+      obtain ⟨p, hp, rfl⟩ := List.mem_map.mp hx
+      exact ⟨p.1, p.2, hs p hp, hc p hp, rfl⟩
+  have hne : ∀ x ∈ (reqs.map fun p => tcpFrame p.1 (encodeRequestPdu p.2)), x ≠ [] := by
+      intro x hx
+      obtain ⟨p, _, rfl⟩ := List.mem_map.mp hx
+      simp [tcpFrame, be16]
+  have H0 := process_serves_pieces .tcp tcpServerFraming svc (reqs.map fun p => tcpFrame p.1 (encodeRequestPdu p.2)) t plans
+  rw [hitems] at H0
+  obtain ⟨H1, H2⟩ := H0 hv hne hw hplan hf hfeed hdata henc
+  refine ⟨H1, H2, ?_, H2.written⟩
+  rw [H2.calls]
+  rw [callsOf_expectedTrace, List.map_map]
+  rfl
+
+/-- the same over RTU -/
+theorem serves_every_request_in_pieces_rtu (svc : Service) (reqs : List (UInt8 × Request)) (t : Transport)
+    (plans : Plan)
+    (hs : ∀ p ∈ reqs, requestPduSizeRaw p.2 ≤ 253) (ht : ∀ p ∈ reqs, ∀ fc d, p.2 ≠ .custom fc d)
+    (hw : t.writes = scriptOf (expectedTrace .rtu svc 0 (reqs.map fun p => ({ tid := 0, unit := p.1 }, p.2))) plans)
+    (hplan : PlanOk (expectedTrace .rtu svc 0 (reqs.map fun p => ({ tid := 0, unit := p.1 }, p.2))) plans)
+    (hf : t.flushes = []) (hfeed : ∀ e ∈ t.reads, e.isFeed = true)
+    (hdata : dataOf t.reads = (reqs.map fun p => rtuFrame p.1 (encodeRequestPdu p.2)).flatten)
+    (henc : Encodable .rtu svc 0 (reqs.map fun p => ({ tid := 0, unit := p.1 }, p.2))) :
+    (process .rtu svc t).1 = .blocked
+    ∧ Refines (process .rtu svc t).2.1 (expectedTrace .rtu svc 0 (reqs.map fun p => ({ tid := 0, unit := p.1 }, p.2)))
+    ∧ callsOf (process .rtu svc t).2.1 = reqs
+    ∧ writtenOf (process .rtu svc t).2.1
+        = writtenOf (expectedTrace .rtu svc 0 (reqs.map fun p => ({ tid := 0, unit := p.1 }, p.2))) := by
+  have hitems : (reqs.map fun p => rtuFrame p.1 (encodeRequestPdu p.2)).map rtuServerFraming.item
+      = reqs.map fun p => ({ tid := 0, unit := p.1 }, p.2) := by
+    rw [List.map_map]
+    apply List.map_congr_left
+    intro p hp
+    have h3 := server_decodes_request_rtu {} p.1 p.2 [] (hs p hp) (ht p hp)
+    simp only [List.append_nil] at h3
+    simp [rtuServerFraming, Framing.ofStrict, h3]
+  have hv : ∀ x ∈ (reqs.map fun p => rtuFrame p.1 (encodeRequestPdu p.2)), rtuServerFraming.Valid x := by
+      intro x hx
+      obtain ⟨p, hp, rfl⟩ := List.mem_map.mp hx
+      exact ⟨p.1, p.2, hs p hp, ht p hp, rfl⟩
+  have hne : ∀ x ∈ (reqs.map fun p => rtuFrame p.1 (encodeRequestPdu p.2)), x ≠ [] := by
+      intro x hx
+      obtain ⟨p, _, rfl⟩ := List.mem_map.mp hx
+      simp [rtuFrame]
+  have H0 := process_serves_pieces .rtu rtuServerFraming svc (reqs.map fun p => rtuFrame p.1 (encodeRequestPdu p.2)) t plans
+  rw [hitems] at H0
+  obtain ⟨H1, H2⟩ := H0 hv hne hw hplan hf hfeed hdata henc
+  refine ⟨H1, H2, ?_, H2.written⟩
+  rw [H2.calls]
+  rw [callsOf_expectedTrace, List.map_map]
+  simp [Function.comp_def]
+
+-- non-vacuity: the two pipelined requests again; the first reply goes out as 4 + 2 + 3 bytes
+-- with `Pending`s between, the second as 1 + 9
+example :
+    (process .tcp (fun i _ _ => if i = 0 then .exception .illegalDataAddress else .reply (.readCoils [true]))
+      { reads := [.data [0, 1, 0, 0, 0, 6, 7, 1, 0, 0, 0, 1,  0, 2, 0, 0, 0, 6, 9, 1, 0, 5, 0, 1]],
+        writes := scriptOf [.call 7 (.readCoils 0 1), .write [0, 1, 0, 0, 0, 3, 7, 0x81, 2],
+                            .call 9 (.readCoils 5 1), .write [0, 2, 0, 0, 0, 4, 9, 1, 1, 1]]
+                    [([some 4, none, some 2, none, none], 100), ([some 1], 20)] }).2.1
+    = [.call 7 (.readCoils 0 1), .write [0, 1, 0, 0], .write [0, 3], .write [7, 0x81, 2],
+       .call 9 (.readCoils 5 1), .write [0], .write [2, 0, 0, 0, 4, 9, 1, 1, 1]] := by
+  decide +kernel
+example : PlanOk [.call 7 (.readCoils 0 1), .write [0, 1, 0, 0, 0, 3, 7, 0x81, 2],
+                  .call 9 (.readCoils 5 1), .write [0, 2, 0, 0, 0, 4, 9, 1, 1, 1]]
+    [([some 4, none, some 2, none, none], 100), ([some 1], 20)] := by
+  simp [PlanOk, accepted]
 
 /-- **no request leaves anything behind for the next** (beyond unsent bytes and unread input):
     two states of a connection with the same unsent bytes and read frames the next poll cannot
